@@ -49,7 +49,12 @@ impl ScriptRng {
     }
     pub fn log_json(&self) -> Value { Value::Array(self.log.iter().map(|(m, n)| json!({"m": m, "n": n})).collect()) }
 }
-fn scripted_err() -> Error { Error::from(core::num::NonZeroU32::new(Error::CUSTOM_START + 7).unwrap()) }
+/// The identity of the error the scripted generator reports, and whether the fault persists on every later request
+/// (a library that inspects the error - retrying "transient" OS codes, say - must still report the failure).
+pub static ERR_CODE: std::sync::atomic::AtomicU32 = std::sync::atomic::AtomicU32::new(0);
+pub static ERR_PERSISTS: std::sync::atomic::AtomicBool = std::sync::atomic::AtomicBool::new(false);
+pub fn err_code() -> u32 { match ERR_CODE.load(std::sync::atomic::Ordering::Relaxed) { 0 => Error::CUSTOM_START + 7, c => c } }
+fn scripted_err() -> Error { Error::from(core::num::NonZeroU32::new(err_code()).unwrap()) }
 pub const INFALLIBLE_MSG: &str = "VERIF: infallible RNG method called";
 impl RngCore for ScriptRng {
     fn next_u32(&mut self) -> u32 { self.log.push(("next_u32".into(), 4)); panic!("{}", INFALLIBLE_MSG) }
@@ -58,7 +63,7 @@ impl RngCore for ScriptRng {
     fn try_fill_bytes(&mut self, dest: &mut [u8]) -> Result<(), Error> {
         let idx = self.log.iter().filter(|(m, _)| m == "try_fill_bytes").count();
         self.log.push(("try_fill_bytes".into(), dest.len()));
-        if idx == self.fail_at_request {
+        if idx == self.fail_at_request || (idx > self.fail_at_request && self.fault != Fault::None && ERR_PERSISTS.load(std::sync::atomic::Ordering::Relaxed)) {
             match self.fault {
                 Fault::None => {}
                 Fault::ErrBefore => return Err(scripted_err()),
